@@ -270,12 +270,17 @@ def gen_kernel(rng):
     labels, cps, info = gen_cps(rng)
     T, F = rng.randint(1, 3), rng.randint(1, 4)
     divide = rng.random() < 0.6
+    call = rng.choice(['kw', 'kw', 'kw', 'out', 'default'])
+    if call == 'default':
+        divide = True
     p_special = rng.choice([0, 0.1, 0.3])
     vis = gen_vis(rng, cps, T, F, divide, p_special)
     pw = rng.choice([0, 0.05, 0.2])
     w = [[[list(rng.choice(SPECIALS)) if rng.random() < pw else [rng.randint(-8, 40), rng.choice([0, 1, 2])]
            for _ in cps] for _ in range(F)] for _ in range(T)]
-    return dict(route='kernel', labels=labels, cps=cps, T=T, F=F, divide=divide, vis=vis, w=w)
+    # how the kernel is called: divide given, divide left out (only generated together with divide=True cases: the
+    # model takes the regenerated default), or with a caller-supplied output array
+    return dict(route='kernel', labels=labels, cps=cps, T=T, F=F, divide=divide, vis=vis, w=w, call=call)
 
 
 def gen_table(rng, pow2=False):
@@ -439,11 +444,21 @@ def kernel_wire(cfg):
     return wire15(cfg, w=wl, wc=one, scaled=not cfg['divide'])
 
 
-def avg_wire(cfg):
+def avg_samples(cfg):
     T, F, B = cfg['T'], cfg['F'], cfg['B']
-    samples = [[[[cfg['vis'][t][f][b][0], cfg['vis'][t][f][b][1], cfg['w'][t][f][b], int(cfg['flags'][t][f][b])]
-                 for b in range(B)] for f in range(F)] for t in range(T)]
-    return [155, [T, F, B, cfg['timeav'], cfg['chanav'], int(cfg['flagav']), samples]]
+    return [[[[cfg['vis'][t][f][b][0], cfg['vis'][t][f][b][1], cfg['w'][t][f][b], int(cfg['flags'][t][f][b])]
+              for b in range(B)] for f in range(F)] for t in range(T)]
+
+
+def avg_wire(cfg):
+    """round-1 wire: per-baseline model + declarative spec of every bin."""
+    return [155, [cfg['T'], cfg['F'], cfg['B'], cfg['timeav'], cfg['chanav'], int(cfg['flagav']), avg_samples(cfg)]]
+
+
+def avg_api_wire(cfg):
+    """the function as written (baseline blocks of the regenerated size; () = the regenerated default options)."""
+    opts = [] if cfg.get('shape_kind') == 'defaults' else [cfg['timeav'], cfg['chanav'], int(cfg['flagav'])]
+    return [1510, [cfg['T'], cfg['F'], cfg['B'], opts, avg_samples(cfg)]]
 
 
 def cross_check_extraction(ctx):
@@ -503,18 +518,30 @@ def run_kernel(ctx, cfg):
                              'product %d: autocorrelation %d looked up at %d, last (a,a) is at %d' % (k, which, ai[idx[k]], want))
     vis = vis_array(cfg['vis'])
     w = np.array([[[lit_float(x) for x in cell] for cell in row] for row in cfg['w']], np.float32).reshape(T, F, B)
+    call = cfg.get('call', 'kw')
+    ctx.count('kernel_call=%s' % call)
     with np.errstate(all='ignore'):
-        out = weight_power_scale(vis, w, ai, i1, i2, divide=divide)
+        if call == 'default':
+            out = weight_power_scale(vis, w, ai, i1, i2)
+        elif call == 'out':
+            buf = np.full((T, F, B), np.float32(-7.0), np.float32)
+            out = weight_power_scale(vis, w, ai, i1, i2, buf, divide)
+            if out is not buf and not np.array_equal(out, buf, equal_nan=True):
+                ctx.disagree('route=kernel;call=out;symptom=out_not_filled', cfg, 'separate result', 'out filled',
+                             'weight_power_scale(out=...) does not fill / return the supplied array')
+        else:
+            out = weight_power_scale(vis, w, ai, i1, i2, divide=divide)
     obs = 'weights' if divide else 'unscaled'
-    compare_ext(ctx, cfg, 'kernel', obs, out, m, cfg['vis'], 'unscaled' if divide else 'scaled')
+    if call != 'default':
+        compare_ext(ctx, cfg, 'kernel', obs, out, m, cfg['vis'], 'unscaled' if divide else 'scaled')
     # the kernel model alone, given the REAL lookup arrays
-    mk = ctx.model([[151, [int(divide), got[0], got[1], got[2],
+    mk = ctx.model([[151, [[] if call == 'default' else int(divide), got[0], got[1], got[2],
                            [[[[lit_wire(c[0]), lit_wire(c[1])] for c in cell] for cell in row] for row in cfg['vis']], wl]]])[0]
     for t in range(T):
         for f in range(F):
             for b in range(B):
                 if same_val(out[t, f, b], model_val(mk[t][f][b]), ctx) is False:
-                    ctx.disagree('route=kernel;obs=%s;vs=kernel_model;symptom=wrong_value' % obs, cfg,
+                    ctx.disagree('route=kernel;obs=%s;vs=kernel_model;call=%s;symptom=wrong_value' % (obs, call), cfg,
                                  dict(at=[t, f, b], value=str(out[t, f, b])), str(model_val(mk[t][f][b])),
                                  'weight_power_scale differs from the kernel model on the real lookup arrays', kind='tie')
                     break
@@ -940,10 +967,30 @@ def gen_v4(rng):
         sel['pol'] = rng.choice(['hh', 'vv', 'hv', 'vh'])
     elif r < 0.55 and n_ant > 1:
         sel['ants'] = [rng.choice(ants)]
+    B_ = 2 * n_ant * (n_ant + 1)
+    drop = None
+    if rng.random() < 0.22:
+        drop = rng.choice(['lite', 'src_streams', 'empty_src', 'int_time', 'n_accs', 'corr_src_streams', 'empty_corr_src',
+                           'instrument_dev_name', 'scale_factor_timestamp'])
+    chunks_ = [compositions(rng, T), compositions(rng, F), compositions(rng, B_)]
+    wchunks_ = [compositions(rng, T), compositions(rng, F), compositions(rng, B_)]
+    lose = []
+    if rng.random() < 0.3:
+        for _ in range(rng.randint(1, 2)):
+            nm = rng.choice(['correlator_data', 'weights'])
+            chs = chunks_ if nm == 'correlator_data' else wchunks_
+            it = [nm, [rng.randrange(len(c)) for c in chs]]
+            if it not in lose:
+                lose.append(it)
+    presel = None
+    if rng.random() < 0.25:
+        t0 = rng.randrange(T)
+        f0 = rng.randrange(F)
+        presel = [t0, rng.randint(1, T - t0), f0, rng.randint(1, F - f0)]
     cfg = dict(route='v4', ants=ants, T=T, F=F, need=need, dp=dp, cdp=cdp, n_accs=n_accs, seed=seed,
+               drop_attr=drop, lose=lose, presel=presel,
                shuffle_bls=rng.random() < 0.6, weights=weights, wc=wc, select=sel,
-               chunks=[compositions(rng, T), compositions(rng, F), compositions(rng, B)],
-               wchunks=[compositions(rng, T), compositions(rng, F), compositions(rng, B)],
+               chunks=chunks_, wchunks=wchunks_,
                index=[rng.choice([None, 2]), rng.choice([None, 2])])
     # visibilities: generated with the shuffled order known -> build order here
     bls = v4_bls(cfg)
@@ -951,6 +998,28 @@ def gen_v4(rng):
     cps = [[labels.index(a), labels.index(b)] for a, b in bls]
     cfg['vis'] = gen_vis(rng, cps, T, F, need, p_special)
     return cfg
+
+
+
+def _presel_dict(pre):
+    t0, tn, f0, fn = pre
+    return dict(dumps=slice(t0, t0 + tn), channels=slice(f0, f0 + fn))
+
+
+def _drop_hook(drop):
+    """telstate hook deleting (or emptying) one of the attributes _cbf_attrs needs."""
+    if drop in (None, 'lite'):
+        return None
+    keys = {'int_time': 'corr_int_time', 'n_accs': 'corr_n_accs', 'corr_src_streams': 'corr_src_streams',
+            'empty_corr_src': 'corr_src_streams', 'instrument_dev_name': 'feng_instrument_dev_name',
+            'scale_factor_timestamp': 'i0_scale_factor_timestamp'}
+
+    def hook(ts, cbid, stream):
+        key = ts.join(stream, 'src_streams') if drop in ('src_streams', 'empty_src') else keys[drop]
+        ts.delete(key)
+        if drop in ('empty_src', 'empty_corr_src'):
+            ts[key] = []
+    return hook
 
 
 def v4_bls(cfg):
@@ -974,15 +1043,19 @@ def run_v4(ctx, cfg):
     scaled = not cfg['need']
     wl = [[[[w, 0] for w in cell] for cell in row] for row in cfg['weights']]
     wcl = [[lit_wire(x) for x in row] for row in cfg['wc']]
-    mo = ctx.model([wire15(mcfg, w=wl, wc=wcl, scaled=scaled, bchv=cfg['chunks'][2], bchw=cfg['wchunks'][2],
-                           tch=cfg['chunks'][0], fch=cfg['chunks'][1])])[0]
-    if mo == [-999]:
-        ctx.disagree('route=v4;symptom=model_rejects_case', cfg, None, mo, 'wire format error', kind='tie')
+    pre = cfg.get('presel')
+    lose = cfg.get('lose') or []
+    drop = cfg.get('drop_attr')
+    T2, F2 = (pre[1], pre[3]) if pre else (T, F)
+    visl = [[[[lit_wire(c[0]), lit_wire(c[1])] for c in cell] for cell in row] for row in cfg['vis']]
+    payload = [[cps], int(scaled), 0, [], B, visl, cfg['chunks'], [i for (nm, i) in lose if nm == 'correlator_data'],
+               wl, cfg['wchunks'], [i for (nm, i) in lose if nm == 'weights'], wcl, [[T], [F]], [],
+               [] if pre is None else pre, [T2], [F2]]
+    mo = ctx.model([[157, payload]])[0]
+    if mo == [-999] or mo[0] != 1 or len(mo) < 7:
+        ctx.disagree('route=v4;symptom=generator_not_wellformed', cfg, None, mo[:2], 'generated case is not well-formed / wire error', kind='tie')
         return
-    m = parse15(mo, T, F, B)
-    if not (m['wf'] and m['ok']):
-        ctx.disagree('route=v4;symptom=generator_not_wellformed', cfg, None, mo[:2], 'generated case is not well-formed', kind='tie')
-        return
+    m = dict(ok=True, vis=mo[1], weights=mo[2], unscaled=mo[3], spec_vis=mo[4], spec_weights=mo[5], spec_unscaled=mo[6])
     arrays = {'correlator_data': vis_array(cfg['vis']).reshape(T, F, B),
               'weights': np.array(cfg['weights'], np.uint8).reshape(T, F, B),
               'weights_channel': np.array([[lit_float(x) for x in row] for row in cfg['wc']], np.float32).reshape(T, F)}
@@ -994,7 +1067,10 @@ def run_v4(ctx, cfg):
                                 chunks={'correlator_data': tuple(tuple(c) for c in cfg['chunks']),
                                         'weights': tuple(tuple(c) for c in cfg['wchunks'])},
                                 need_weights_power_scale=cfg['need'], int_time=cfg['dp'],
-                                cbf=(cfg['cdp'], cfg['n_accs'], 1712e6), tmp=v4.scratch_dir('c15'))
+                                cbf=None if drop == 'lite' else (cfg['cdp'], cfg['n_accs'], 1712e6), tmp=v4.scratch_dir('c15'),
+                                lose=[('sdp_l0', nm, tuple(i)) for (nm, i) in lose], telstate_hook=_drop_hook(drop),
+                                source_kwargs=None if pre is None else dict(preselect=_presel_dict(pre)),
+                                open_kwargs=None if pre is None else dict(preselect=_presel_dict(pre)))
                 d = x.d
                 kw = {}
                 sel = cfg.get('select', {})
@@ -1011,8 +1087,12 @@ def run_v4(ctx, cfg):
                 fi = list(np.nonzero(d._freq_keep)[0][s2])
                 bi = list(np.nonzero(d._corrprod_keep)[0])
                 wts = d.weights[s1, s2]
-                exc = d.excision[s1, s2]
                 apd = d.accumulations_per_dump
+                try:
+                    exc = d.excision[s1, s2]
+                    exc_err = None
+                except ValueError:
+                    exc, exc_err = None, 'ValueError'
         except Exception as e:
             ctx.disagree('route=v4;symptom=raises;exc=%s' % type(e).__name__, cfg, repr(e)[:300], 'a result',
                          'opening / reading weights or excision of a v4 data set raised')
@@ -1026,8 +1106,7 @@ def run_v4(ctx, cfg):
     msel = dict(m)
     for key in ('weights', 'unscaled', 'spec_weights', 'spec_unscaled'):
         msel[key] = sub(m[key])
-    vis_sel = sub(cfg['vis'])
-    scfg = dict(mcfg, cps=[cps[b] for b in bi])
+    mvis = [[[[val_wire(model_val(c[0])), val_wire(model_val(c[1]))] for c in cell] for cell in row] for row in m['vis']]
     decl = 'scaled' if scaled else 'unscaled'
     # signature classification needs the full product list: do it on the unselected arrays
     ok = True
@@ -1041,18 +1120,41 @@ def run_v4(ctx, cfg):
                if same_val(wts[i, j, k_], model_val(mm[i][j][k_]), ctx) is False]
         if bad:
             i, j, k_ = bad[0]
-            cause = cell_cause(mcfg, cfg['vis'], ti[i], fi[j], bi[k_])
+            cause = cell_cause(mcfg, mvis, ti[i], fi[j], bi[k_])
             iv = impl_val(wts[i, j, k_])
             sym = 'zero_weight' if iv == 0 else 'nan_weight' if iv == 'nan' else 'wrong_value'
-            ctx.disagree('route=v4;obs=weights;vs=%s;decl=%s;auto=%s;symptom=%s' % (side, decl, cause, sym), cfg,
+            ctx.disagree('route=v4;obs=weights;vs=%s;decl=%s;auto=%s;lost=%d;presel=%s;symptom=%s' % (side, decl, cause, len(lose), pre is not None, sym), cfg,
                          dict(at=[int(ti[i]), int(fi[j]), int(bi[k_])], value=str(wts[i, j, k_])),
                          str(model_val(mm[i][j][k_])),
                          'd.weights differs from the %s at stored position %s' % (side, [int(ti[i]), int(fi[j]), int(bi[k_])]),
                          kind=kind)
             ok = False
+    # is there an excision indexer at all (CBF attributes present)?
+    present = [int(drop not in ('lite', 'src_streams', 'empty_src')), int(drop not in ('lite', 'int_time')),
+               int(drop not in ('lite', 'n_accs')), int(drop not in ('lite', 'corr_src_streams', 'empty_corr_src')),
+               int(drop not in ('lite', 'instrument_dev_name')), int(drop not in ('lite', 'scale_factor_timestamp'))]
+    dpf, cdpf = Fraction(cfg['dp']), Fraction(cfg['cdp'])
+    ma = ctx.model([[158, [present, [cdpf.numerator, cdpf.denominator], cfg['n_accs'], [dpf.numerator, dpf.denominator], 1, []]]])[0]
+    ctx.count('v4_drop_attr=%s' % drop)
+    ctx.count('v4_lost_chunks=%d' % len(lose))
+    ctx.count('v4_preselect=%s' % (pre is not None))
+    m_avail = ma[0] == 1
+    m_apd = (ma[1] if m_avail else ma[2])
+    m_apd = m_apd[0] if m_apd else None
+    if (exc_err is None) != m_avail or apd != m_apd:
+        ctx.disagree('route=v4;obs=excision;drop=%s;symptom=availability' % drop, cfg,
+                     dict(excision=exc_err or 'indexer', accumulations_per_dump=apd),
+                     dict(excision='indexer' if m_avail else 'ValueError', accumulations_per_dump=m_apd),
+                     'd.excision / accumulations_per_dump: available exactly when every CBF attribute is found',
+                     kind='property' if exc_err is None else 'tie')
+        return
+    if exc_err is not None:
+        ctx.traces_validated += 1
+        ctx.note_case(cfg_key(cfg), nontrivial=True, sample=dict(route='v4', drop_attr=drop, excision='ValueError'))
+        ctx.count('route=v4')
+        return
     # excision from the model's unscaled weights
     flat = [val_wire(model_val(msel['unscaled'][i][j][k_])) for i in range(len(ti)) for j in range(len(fi)) for k_ in range(len(bi))]
-    dpf, cdpf = Fraction(cfg['dp']), Fraction(cfg['cdp'])
     me = ctx.model([[152, [cfg['n_accs'], [dpf.numerator, dpf.denominator], [cdpf.numerator, cdpf.denominator], flat]]])[0]
     k_model, A_model = me[0], me[1]
     if apd != A_model:
@@ -1104,7 +1206,9 @@ def gen_v3(rng):
     wc = [[list(rng.choice(SPECIALS)) if rng.random() < p else [rng.choice([1, 2, 3, 4, 8]), rng.choice([0, 1, 2])]
            for _ in range(F)] for _ in range(T)]
     return dict(route='v3', T=T, F=F, ants=ants, have_w=rng.random() < 0.6, have_wc=rng.random() < 0.6,
-                w_uint8=rng.random() < 0.4, select_none=rng.random() < 0.25, w=w, wc=wc, seed=rng.randrange(10 ** 6),
+                w_uint8=rng.random() < 0.4, w=w, wc=wc, seed=rng.randrange(10 ** 6),
+                wsel=rng.choice([None, None, None, '', 'all', 'precision', 'bogus', 'precision,bogus', 'bogus, precision',
+                                 ['bogus'], ['bogus', 'precision'], [], ['precision', 'precision']]),
                 keep=[rng.random() < 0.8 for _ in range(T)])
 
 
@@ -1134,13 +1238,14 @@ def run_v3(ctx, cfg):
                 if cfg['have_wc']:
                     f['Data'].create_dataset('weights_channel', data=wc)
             d = katdal.open(fn, centre_freq=1284e6)
-            if cfg.get('select_none'):
-                d.select(weights='')
+            wsel = '' if cfg.get('select_none') else cfg.get('wsel')
+            wkw = {} if wsel is None else {'weights': wsel}
             keep = np.array(cfg['keep'], bool)
             if keep.any():
-                d.select(dumps=keep, **({'weights': ''} if cfg.get('select_none') else {}))
+                d.select(dumps=keep, **wkw)
             else:
                 keep[:] = True
+                d.select(**wkw)
             got = d.weights[:]
         except Exception as e:
             ctx.disagree('route=v3;symptom=raises;exc=%s;have_w=%s;have_wc=%s' % (type(e).__name__, cfg['have_w'], cfg['have_wc']),
@@ -1151,7 +1256,26 @@ def run_v3(ctx, cfg):
     ti = list(np.nonzero(keep)[0])
     cells = [[lit(w[t, f, b]), lit(wc[t, f])] for t in ti for f in range(F) for b in range(B)]
     cells = [[lit_wire(a), lit_wire(b)] for a, b in cells]
-    mo = ctx.model([[153, [int(not cfg.get('select_none')), int(cfg['have_w']), int(cfg['have_wc']), cells]]])[0]
+    # the request as _selection_to_list reads it (string parsing is the harness's: '' -> nothing, 'all' -> every known
+    # type, comma-separated names stripped); names are numbered for the wire
+    code = {'precision': 7, 'bogus': 9}
+    if wsel is None or wsel == 'all':
+        req, names = 1, None
+    elif isinstance(wsel, str):
+        names = [x.strip() for x in wsel.split(',')] if wsel else []
+        req = [code[x] for x in names]
+    else:
+        names = list(wsel)
+        req = [code[x] for x in names]
+    mo2 = ctx.model([[159, [[7], req, int(cfg['have_w']), int(cfg['have_wc']), cells]]])[0]
+    selected = bool(mo2[0])
+    if selected != (names is None or 'precision' in names):
+        ctx.disagree('route=v3;symptom=model_selection', cfg, selected, names, 'model of the weight selection disagrees with the request', kind='tie')
+    mo = mo2[1]
+    # the round-1 model (selected flag given) must agree with the request model
+    mo1 = ctx.model([[153, [int(selected), int(cfg['have_w']), int(cfg['have_wc']), cells]]])[0]
+    if mo1 != mo:
+        ctx.disagree('route=v3;symptom=models_differ', cfg, mo1[:4], mo[:4], 'wire_153 and wire_159 disagree', kind='tie')
     if got.shape != (len(ti), F, B):
         ctx.disagree('route=v3;symptom=shape', cfg, list(got.shape), [len(ti), F, B], 'shape of v3 weights')
         return
@@ -1165,7 +1289,7 @@ def run_v3(ctx, cfg):
                 c = impl_val(wc[ti[i], f]) if cfg['have_wc'] else Fraction(1)
                 if same_val(got[i, f, b], mv, ctx) is False:
                     ctx.disagree('route=v3;obs=weights;have_w=%s;have_wc=%s;selected=%s;symptom=wrong_value'
-                                 % (cfg['have_w'], cfg['have_wc'], not cfg.get('select_none')), cfg,
+                                 % (cfg['have_w'], cfg['have_wc'], selected), cfg,
                                  dict(at=[int(ti[i]), f, b], value=str(got[i, f, b])), str(mv),
                                  'v3 weights differ from stored product (w=%s, wc=%s)' % (a, c))
                     n = -1
@@ -1177,9 +1301,10 @@ def run_v3(ctx, cfg):
             break
     ctx.traces_validated += 1
     ctx.note_case(cfg_key(cfg), nontrivial=bool(cfg['have_w'] or cfg['have_wc']),
-                  sample=dict(route='v3', have_w=cfg['have_w'], have_wc=cfg['have_wc'], select_none=cfg.get('select_none'),
+                  sample=dict(route='v3', have_w=cfg['have_w'], have_wc=cfg['have_wc'], weights_request=wsel,
                               shape=[len(ti), F, B]))
     ctx.count('route=v3')
+    ctx.count('v3_request=%s' % ('default' if wsel is None else repr(wsel)))
     ctx.count('v3_have=%d%d' % (cfg['have_w'], cfg['have_wc']))
 
 
@@ -1287,13 +1412,27 @@ def check_real_table(ctx):
 def gen_avg(rng, force=None):
     force = force or {}
     T, F, B = rng.randint(1, 6), rng.randint(1, 6), rng.randint(1, 3)
-    timeav = force.get('timeav', rng.randint(1, T) if rng.random() < 0.85 else rng.randint(T + 1, T + 3))
-    chanav = force.get('chanav', rng.randint(1, F) if rng.random() < 0.85 else rng.randint(F + 1, F + 3))
+    shape_kind = 'small'
+    r = rng.random()
+    if r < 0.07:          # more baselines than one block of the kernel (bl_step = 128): block boundaries
+        shape_kind = 'blocks'
+        T, F, B = rng.randint(1, 2), rng.randint(1, 2), rng.choice([127, 128, 129, 130, 255, 256, 257, 300])
+    elif r < 0.10:        # degenerate but legal: an empty axis
+        shape_kind = 'empty_axis'
+        k = rng.randrange(3)
+        T, F, B = [0 if k == 0 else T, 0 if k == 1 else F, 0 if k == 2 else B]
+    elif r < 0.16:        # the call without averaging options
+        shape_kind = 'defaults'
+        T, F, B = rng.randint(1, 23), rng.randint(6, 18), rng.randint(1, 2)
+    timeav = force.get('timeav', rng.randint(1, max(T, 1)) if rng.random() < 0.85 else rng.randint(T + 1, T + 3))
+    chanav = force.get('chanav', rng.randint(1, max(F, 1)) if rng.random() < 0.85 else rng.randint(F + 1, F + 3))
     flagav = rng.random() < 0.5
+    if shape_kind == 'defaults':
+        timeav, chanav, flagav = 10, 8, False      # only to shape the values; the call leaves them out
     pf = rng.choice([0, 0.1, 0.4, 0.8, 1.0])
     wmode = rng.choice(['pow2', 'pow2', 'int', 'signed', 'zero'])
     flags = [[[rng.random() < pf for _ in range(B)] for _ in range(F)] for _ in range(T)]
-    if rng.random() < 0.3:          # a fully flagged dump / channel
+    if rng.random() < 0.3 and T:          # a fully flagged dump / channel
         t = rng.randrange(T)
         flags[t] = [[True] * B for _ in range(F)]
 
@@ -1306,7 +1445,7 @@ def gen_avg(rng, force=None):
             return [0, 0]
         return [rng.choice([-2, -1, 1, 2]), 0]
     w = [[[wgen() for _ in range(B)] for _ in range(F)] for _ in range(T)]
-    ta = min(timeav, T)
+    ta = max(1, min(timeav, T))
     ca = chanav
     # visibilities: Gaussian integers times the odd part of the bin's unflagged weight sum (in quarter units), so that
     # the weighted mean is exact in complex64 for most bins
@@ -1322,7 +1461,8 @@ def gen_avg(rng, force=None):
                 if rng.random() < 0.1:
                     odd = 1
                 vis[t][f][b] = [[odd * rng.randint(-16, 16), 0], [odd * rng.randint(-16, 16), 0]]
-    return dict(route='avg', T=T, F=F, B=B, timeav=timeav, chanav=chanav, flagav=flagav, vis=vis, w=w, flags=flags)
+    return dict(route='avg', T=T, F=F, B=B, timeav=timeav, chanav=chanav, flagav=flagav, vis=vis, w=w, flags=flags,
+                shape_kind=shape_kind)
 
 
 def run_avg(ctx, cfg):
@@ -1332,14 +1472,28 @@ def run_avg(ctx, cfg):
                    np.complex64).reshape(T, F, B)
     w = np.array([[[lit_float(x) for x in cell] for cell in row] for row in cfg['w']], np.float32).reshape(T, F, B)
     fl = np.array(cfg['flags'], bool).reshape(T, F, B)
-    mo = ctx.model([avg_wire(cfg)])[0]
-    if mo == [-999]:
+    defaults = cfg.get('shape_kind') == 'defaults'
+    mo, ma = ctx.model([avg_wire(cfg), avg_api_wire(cfg)])
+    if mo == [-999] or ma == [-999]:
         ctx.disagree('route=avg;symptom=model_rejects_case', cfg, None, mo, 'wire format error', kind='tie')
         return
+    ctx.count('avg_shape_kind=%s' % cfg.get('shape_kind', 'small'))
+    # tie = the function as written (wire_1510); property = the declarative bins (wire_155).  With the options left
+    # out the property fixes nothing about the factors: tie only.
+    if defaults:
+        mo = [ma[0]] + ([ma[2], None] if ma[0] == 1 else [])
+    else:
+        if mo[0] != ma[0] or (mo[0] == 1 and mo[1] != ma[2]):
+            ctx.disagree('route=avg;symptom=models_differ', cfg, 'blocked', 'per-baseline',
+                         'the blocked model (wire_1510) and the per-baseline model (wire_155) disagree', kind='tie')
+            return
     ts, fs = 1000.0 + 2.0 * np.arange(T), 1e9 + 1e6 * np.arange(F)
     try:
-        av, aw, af, at, afr = average_visibilities(vis, w, fl, ts, fs, timeav=cfg['timeav'], chanav=cfg['chanav'],
-                                                   flagav=cfg['flagav'])
+        if defaults:
+            av, aw, af, at, afr = average_visibilities(vis, w, fl, ts, fs)
+        else:
+            av, aw, af, at, afr = average_visibilities(vis, w, fl, ts, fs, timeav=cfg['timeav'], chanav=cfg['chanav'],
+                                                       flagav=cfg['flagav'])
     except ZeroDivisionError:
         if mo[0] == 1:
             ctx.disagree('route=avg;symptom=zerodivision', cfg, 'ZeroDivisionError', 'arrays', 'raised on positive factors')
@@ -1354,12 +1508,20 @@ def run_avg(ctx, cfg):
     n_bins = 0
     multi = False
     ta = min(cfg['timeav'], T)
+    mshape = tuple(ma[1])
+    if tuple(av.shape) != mshape or aw.shape != av.shape or af.shape != av.shape:
+        ctx.disagree('route=avg;vs=model;kind=%s;symptom=shape' % cfg.get('shape_kind', 'small'), cfg, list(av.shape), list(mshape),
+                     'shape of the averaged arrays (clamping of the factors, trimming of partial bins)', kind='tie')
+        return
     for side, m, kind in (('model', mo[1], 'tie'), ('spec', mo[2], 'property')):
+        if m is None:
+            continue
         shape = (len(m), len(m[0]) if m else 0, len(m[0][0]) if m and m[0] else 0)
-        exp_shape = (len(m), F // cfg['chanav'] if len(m) else av.shape[1], B if (len(m) and F // cfg['chanav']) else av.shape[2])
-        if av.shape[0] != shape[0] or (shape[0] and shape[1] and av.shape != shape) or aw.shape != av.shape or af.shape != av.shape:
+        if shape != mshape and 0 not in mshape:
             ctx.disagree('route=avg;vs=%s;symptom=shape' % side, cfg, list(av.shape), list(shape),
                          'shape of the averaged arrays (trimming of partial bins)', kind=kind)
+            continue
+        if 0 in mshape:
             continue
         done = False
         for i in range(shape[0]):
@@ -1390,15 +1552,15 @@ def run_avg(ctx, cfg):
                         nm, got, want = probs[0]
                         allflag = all(cfg['flags'][t][f][b] for t in range(T) for f in range(F)
                                       if t // min(cfg['timeav'], T) == i and f // cfg['chanav'] == j)
-                        sig = 'route=avg;obs=%s;vs=%s;flagav=%s;allflagged=%s;zero_wsum=%s;symptom=wrong_value' % (
-                            nm, side, cfg['flagav'], allflag, wv == 0)
+                        sig = 'route=avg;obs=%s;vs=%s;flagav=%s;allflagged=%s;zero_wsum=%s;block=%s;symptom=wrong_value' % (
+                            nm, side, cfg['flagav'], allflag, wv == 0, 'first' if b < 128 else 'later')
                         ctx.disagree(sig, cfg, dict(bin=[i, j, b], value=str(got)), str(want),
                                      'averaged %s of bin %s differs from the %s' % (nm, [i, j, b], side), kind=kind)
                         done = True
     # the averaged coordinates are plain means of the kept bins
-    ta = min(cfg['timeav'], T)
-    if len(at) != T // ta or len(afr) != F // cfg['chanav']:
-        ctx.disagree('route=avg;obs=coords;symptom=shape', cfg, [len(at), len(afr)], [T // ta, F // cfg['chanav']], 'averaged coordinates')
+    ta = max(1, min(cfg['timeav'], T))
+    if len(at) != mshape[0] or len(afr) != mshape[1]:
+        ctx.disagree('route=avg;obs=coords;symptom=shape', cfg, [len(at), len(afr)], list(mshape[:2]), 'averaged coordinates', kind='tie')
     ctx.traces_validated += 1
     multi = ta * cfg['chanav'] > 1 and n_bins > 0
     anyflag = any(x for row in cfg['flags'] for cell in row for x in cell)
@@ -1444,22 +1606,16 @@ def run(ctx):
 
     def sub():
         return random.Random(ctx.rng.getrandbits(48))
-    for _ in range(ctx.scale(250, 6000)):
-        run_kernel(ctx, gen_kernel(sub()))
-    for _ in range(ctx.scale(90, 1500)):
-        run_vfw(ctx, gen_vfw(sub()))
-    for _ in range(ctx.scale(110, 2000)):
-        run_store(ctx, gen_store(sub()))
-    for _ in range(ctx.scale(16, 200)):
-        run_lookup(ctx, gen_lookup(sub()))
-    for _ in range(ctx.scale(300, 8000)):
-        run_avg(ctx, gen_avg(sub()))
-    for _ in range(ctx.scale(30, 300)):
-        run_v4(ctx, gen_v4(sub()))
-    for _ in range(ctx.scale(20, 150)):
-        run_v3(ctx, gen_v3(sub()))
-    for _ in range(ctx.scale(10, 120)):
-        run_vv(ctx, gen_vv(sub()))
+    # (route, generator, quick, thorough); VERIF_C15_ROUTES=a,b restricts the run (development aid only)
+    plan = [('kernel', gen_kernel, 250, 6000), ('vfw', gen_vfw, 90, 1500), ('store', gen_store, 110, 2000),
+            ('lookup', gen_lookup, 16, 200), ('avg', gen_avg, 300, 8000), ('v4', gen_v4, 36, 320), ('v3', gen_v3, 24, 160),
+            ('vv', gen_vv, 10, 120)]
+    only = [r for r in os.environ.get('VERIF_C15_ROUTES', '').split(',') if r]
+    for route, gen, nq, nt in plan:
+        for _ in range(ctx.scale(nq, nt)):
+            cfg = gen(sub())
+            if not only or route in only:
+                ROUTES[route](ctx, cfg)
     if ctx.tier == 'thorough':
         cross_check_extraction(ctx)
     ctx.exhaustive = False
